@@ -340,4 +340,4 @@ def run_linter(ctx, pairs):
 
 
 def small_schema(seed, label):
-    return schemagen.generate(seed, label, max_types=9)
+    return schemagen.generate(seed, label, max_types=9, anon_pairs=False)
